@@ -99,6 +99,19 @@ def realise(sp, obligation, budget_s=600):
             if pm:
                 cfgd = dict(n=reg['m'], d=1, sc=reg['sc'], fc=reg['fc'], start=pm['start'], cont=sp['cont'], chunk=sp['chunk'])
                 return cfgd, prefix_history(sp, pm) + [dict(g=c['g'], b=c['b'], vlen=c['vlen']) for c in pm['calls']]
+    if not sp.get('pre'):
+        # windows of unequal size (non-integer number of samples per file): concrete rational rates, windows computed with div / mod
+        for (n_, d_) in ((5, 2), (7, 3)):
+            sp2 = dict(sp); sp2.update(n=n_, d=d_, sc=2, fc=1000, window_style='div', name=sp['name'] + ' [%d/%d Hz]' % (n_, d_), budget_s=budget_s, witness=0)
+            sp2['start_lo'] = 10**9 * n_ // d_; sp2['start_hi'] = 4 * 10**9 * n_ // d_
+            sp2['calls'] = [dict(c, maxv=min(c.get('maxv', 12), 12), maxg=40) for c in sp['calls']]
+            r = run_one(sp2)
+            v = r['results'].get(obligation)
+            if v and v[0] == 'sat' and v[1]:
+                pm = v[1] if 'calls' in v[1] else v[1].get('model')
+                if pm:
+                    cfgd = dict(n=n_, d=d_, sc=2, fc=1000, start=pm['start'], cont=sp['cont'], chunk=sp['chunk'])
+                    return cfgd, [dict(g=c['g'], b=c['b'], vlen=c['vlen']) for c in pm['calls']]
     return None
 
 
